@@ -681,7 +681,7 @@ pub fn observe_err(e: &reval::Error) -> OErr {
             function.clone(),
             // the injected error is found again by downcast: either the harness's own error type or
             // a reval error of an inner ruleset, whose function name carries the token
-            error.downcast_ref::<Injected>().map(|i| i.0).or_else(|| match error.downcast_ref::<reval::Error>() {
+            error.downcast_ref::<Injected>().map(|i| i.0).or_else(|| error.downcast_ref::<std::io::Error>().and_then(|e| e.get_ref()).and_then(|i| i.downcast_ref::<Injected>()).map(|i| i.0)).or_else(|| match error.downcast_ref::<reval::Error>() {
                 Some(E::UserFunctionError { function: inner, .. }) => inner.strip_prefix("inner#").and_then(|t| t.parse().ok()),
                 // a failed conversion inside the user function (`param.try_into()?`), token in the value
                 Some(E::UnexpectedValueType(reval::value::Value::Int(t), who)) if who == "harness" => u64::try_from(*t).ok(),
@@ -693,6 +693,8 @@ pub fn observe_err(e: &reval::Error) -> OErr {
                 "{error} <{}>",
                 if error.is::<Injected>() {
                     "harness error".to_string()
+                } else if let Some(io) = error.downcast_ref::<std::io::Error>() {
+                    format!("io::Error {:?}", io.kind())
                 } else if let Some(r) = error.downcast_ref::<reval::Error>() {
                     format!("reval::Error::{}", format!("{r:?}").split(['(', ' ', '{']).next().unwrap_or(""))
                 } else {
